@@ -36,6 +36,10 @@ pub struct RScenario {
     /// lexeme i is a real zero-width lexeme
     #[serde(default)]
     pub zero_width: Vec<bool>,
+    /// injected lexing fault: the lexer reports an error in place of lexeme k (k = number of
+    /// lexemes: after the last one) and then stops (false) or carries on (true)
+    #[serde(default)]
+    pub lex_error: Option<(usize, bool)>,
 }
 
 #[derive(Clone, Debug, Serialize, Deserialize)]
@@ -148,6 +152,8 @@ pub struct Rec {
 pub struct MapRun {
     pub value: Option<Tree>,
     pub errors: Vec<RealErr>,
+    /// lexing errors in the returned error list
+    pub lex_errors: usize,
     /// iteration order of a probe HashSet created right after the parse: pins down the hash keys
     /// (seed *and* per-thread RandomState counter) the simulated process ended up with, so that the
     /// determinism self-test notices if they depend on the host process's history
@@ -156,6 +162,8 @@ pub struct MapRun {
 pub struct ActRun {
     pub value: Option<usize>,
     pub errors: Vec<RealErr>,
+    /// lexing errors in the returned error list
+    pub lex_errors: usize,
     pub recs: Vec<Rec>,
     /// argument-passing anomalies noticed by the recorder itself (class, detail)
     pub notes: Vec<(String, String)>,
@@ -166,9 +174,10 @@ fn real_parse_map(b: &Built, lexer: &StubLexer, costs: &[u8], hash_seed: u64, cl
         let calls = Cell::new(0usize);
         let cf = |t: TIdx<u16>| costs[usize::from(t)];
         let lx: &StubLexer = lexer;
-        let (v, errs) = RTParserBuilder::<u16, LT>::new(&b.grm, &b.st)
-            .recoverer(RecoveryKind::CPCTPlus)
-            .term_costs(&cf)
+        // the two setters commute: which comes first alternates with the scenario's hash seed
+        let pb = RTParserBuilder::<u16, LT>::new(&b.grm, &b.st);
+        let pb = if hash_seed & 1 == 0 { pb.recoverer(RecoveryKind::CPCTPlus).term_costs(&cf) } else { pb.term_costs(&cf).recoverer(RecoveryKind::CPCTPlus) };
+        let (v, errs) = pb
             .parse_map(
                 &lx,
                 &|l: Lx| Tree::Term { tok: l.tok_id, start: l.start, len: l.len, faulty: l.faulty },
@@ -182,7 +191,8 @@ fn real_parse_map(b: &Built, lexer: &StubLexer, costs: &[u8], hash_seed: u64, cl
             );
         let probe: Vec<u32> = (0..16u32).collect::<std::collections::HashSet<u32>>().into_iter().collect();
         let hash_probe = fnv(&probe.iter().flat_map(|x| x.to_le_bytes()).collect::<Vec<u8>>());
-        MapRun { value: v, errors: conv_errs(errs), hash_probe }
+        let lex_errors = errs.iter().filter(|e| matches!(e, LexParseError::LexError(_))).count();
+        MapRun { value: v, errors: conv_errs(errs), lex_errors, hash_probe }
     })
 }
 
@@ -219,14 +229,14 @@ fn real_parse_actions(b: &Built, lexer: &StubLexer, costs: &[u8], hash_seed: u64
             })
             .collect();
         let actions: Vec<AF> = closures.iter().map(|c| &**c as AF).collect();
-        let (v, errs) = RTParserBuilder::<u16, LT>::new(&b.grm, &b.st)
-            .recoverer(rk)
-            .term_costs(&cf)
-            .parse_actions(&lx, &actions, PARAM_MAGIC);
+        let pb = RTParserBuilder::<u16, LT>::new(&b.grm, &b.st);
+        let pb = if hash_seed & 1 == 0 { pb.recoverer(rk).term_costs(&cf) } else { pb.term_costs(&cf).recoverer(rk) };
+        let (v, errs) = pb.parse_actions(&lx, &actions, PARAM_MAGIC);
+        let lex_errors = errs.iter().filter(|e| matches!(e, LexParseError::LexError(_))).count();
         let errors = conv_errs(errs);
         drop(actions);
         drop(closures);
-        ActRun { value: v, errors, recs: recs.into_inner(), notes: vec![] }
+        ActRun { value: v, errors, lex_errors, recs: recs.into_inner(), notes: vec![] }
     })
 }
 
@@ -285,6 +295,9 @@ fn scenario_digest(sc: &RScenario) -> u64 {
     }
     for z in &sc.zero_width {
         h = fnv_add(h, &[*z as u8 + 7]);
+    }
+    if let Some((k, g)) = sc.lex_error {
+        h = fnv_add(h, format!("lexerr{k}{g}").as_bytes());
     }
     h = fnv_add(h, &sc.hash_seed.to_le_bytes());
     h = fnv_add(h, &sc.clock.tick_ns.to_le_bytes());
@@ -349,6 +362,7 @@ pub fn run_canonical_loop() -> bool {
         policy_class: "tick".into(),
         base_reads: 0,
         zero_width: vec![],
+        lex_error: None,
     };
     let Ok(prep) = prepare(&sc) else { return true };
     let lexer = StubLexer::new(&prep.toks, &sc.gaps, &sc.zero_width);
@@ -373,9 +387,17 @@ pub fn execute(sc: &RScenario, opts: &ExecOpts) -> RunReport {
     let ctx = Ctx::new(grm, &b.st, &prep.toks, &prep.costs);
     let mut ss = Stacks::new();
     let start_stack = ss.from_slice(&[b.st.start_state().0]);
-    let lexer = StubLexer::new(&prep.toks, &sc.gaps, &sc.zero_width);
+    let mut lexer = StubLexer::new(&prep.toks, &sc.gaps, &sc.zero_width);
     let n = prep.toks.len();
     let gdig = fnv(sc.grammar.as_bytes());
+    if let (Some(le), None) = (sc.lex_error, opts.act_runner) {
+        if gram::reduction_loop_witness(b).is_some() {
+            rep.discarded = Some("lexing fault on a table with a reduction loop".into());
+            return rep;
+        }
+        lexer.err_at = Some(le);
+        return execute_lexerr(rep, sc, &prep, &lexer);
+    }
 
     // ---- tables with a statically detectable endless reduction chain are never run in-process --
     if let Some((q, t)) = gram::reduction_loop_witness(b) {
@@ -409,7 +431,7 @@ pub fn execute(sc: &RScenario, opts: &ExecOpts) -> RunReport {
         match &ao {
             SimOutcome::Ok(a) => {
                 let value = a.value.filter(|v| *v < a.recs.len()).map(|v| build_tree(&a.recs, v));
-                (SimOutcome::Ok(MapRun { value, errors: a.errors.clone(), hash_probe: 0 }), astats.clone())
+                (SimOutcome::Ok(MapRun { value, errors: a.errors.clone(), lex_errors: a.lex_errors, hash_probe: 0 }), astats.clone())
             }
             SimOutcome::Panic(m) => (SimOutcome::Panic(m.clone()), astats.clone()),
         }
@@ -1027,6 +1049,58 @@ fn loop_scenario(mut rep: RunReport, prep: &Prepared, what: &str) -> RunReport {
     rep
 }
 
+/// A lexer that reports an error (in place of lexeme k, or after the last lexeme): whatever the
+/// front end does with the lexemes before and after it, the input was *not* accepted unchanged,
+/// and a lexing error carries no repair sequence. C07's last sentence then demands: never a value
+/// with an empty error list; never a value next to a reported lexing error; never "no value"
+/// with nothing reported.
+fn execute_lexerr(mut rep: RunReport, sc: &RScenario, prep: &Prepared, lexer: &StubLexer) -> RunReport {
+    let b = &prep.built;
+    let (ao, astats) = real_parse_actions(b, lexer, &prep.costs, sc.hash_seed, &sc.clock, RecoveryKind::CPCTPlus);
+    let (mo, mstats) = real_parse_map(b, lexer, &prep.costs, sc.hash_seed, &sc.clock);
+    let (no, _) = real_parse_actions(b, lexer, &prep.costs, sc.hash_seed, &sc.clock, RecoveryKind::None);
+    rep.clock_reads = mstats.clock_reads;
+    rep.elapsed_ns = mstats.elapsed_ns;
+    rep.exercised[2] = true;
+    rep.probes.hit("lexing_faults_injected");
+    if sc.lex_error.map_or(false, |l| l.1) {
+        rep.probes.hit("lexing_faults_with_lexemes_after_the_error");
+    }
+    let mut lh = fnv(&mstats.clock_reads.to_le_bytes());
+    lh = fnv_add(lh, &astats.clock_reads.to_le_bytes());
+    let mut j = Judge { p1: prep.p1, rep: &mut rep };
+    let mut judge = |j: &mut Judge, which: &str, r: Result<(bool, usize, usize), String>| match r {
+        Err(msg) => classify_panic(j, prep, sc, &msg, which),
+        Ok((has_value, n_parse, n_lex)) => {
+            if has_value && n_parse + n_lex == 0 {
+                j.viol("C07", "C07-d-lexing-error-value-with-empty-error-list", format!("{which}: the lexer reported an error at lexeme {:?} of {}, yet a value came back with an empty error list", sc.lex_error, sc.tokens.len()));
+            } else if has_value && n_lex > 0 {
+                j.viol("C07", "C07-d-lexing-error-value-iff-repaired", format!("{which}: a value came back next to {n_lex} lexing error(s), which carry no repair sequence"));
+            } else if !has_value && n_parse + n_lex == 0 {
+                j.viol("C07", "C07-d-value-iff-repaired", format!("{which}: neither a value nor an error (lexing fault at {:?})", sc.lex_error));
+            }
+            if n_lex > 0 {
+                j.rep.probes.hit("lexing_errors_reported");
+            }
+        }
+    };
+    let conv_m = |o: SimOutcome<MapRun>| match o {
+        SimOutcome::Ok(m) => Ok((m.value.is_some(), m.errors.len(), m.lex_errors)),
+        SimOutcome::Panic(m) => Err(m),
+    };
+    let conv_a = |o: SimOutcome<ActRun>| match o {
+        SimOutcome::Ok(m) => Ok((m.value.is_some(), m.errors.len(), m.lex_errors)),
+        SimOutcome::Panic(m) => Err(m),
+    };
+    let (rm, ra, rn) = (conv_m(mo), conv_a(ao), conv_a(no));
+    lh = fnv_add(lh, format!("{rm:?}{ra:?}{rn:?}").as_bytes());
+    judge(&mut j, "parse_map", rm);
+    judge(&mut j, "parse_actions", ra);
+    judge(&mut j, "parse_actions without recovery", rn);
+    j.rep.log_hash = lh;
+    rep
+}
+
 fn classify_panic(j: &mut Judge, prep: &Prepared, sc: &RScenario, msg: &str, which: &str) {
     if msg.starts_with("HARNESS-LOOP-GUARD") {
         if !prep.p1 {
@@ -1321,6 +1395,7 @@ fn gen_overflow(r: &mut Rng) -> RScenario {
         policy_class: "tick".into(),
         base_reads: 0,
         zero_width: vec![],
+        lex_error: None,
     }
 }
 
@@ -1343,6 +1418,7 @@ fn gen_long_junk(r: &mut Rng) -> RScenario {
         policy_class: "tick".into(),
         base_reads: 0,
         zero_width: vec![],
+        lex_error: None,
     }
 }
 
@@ -1467,6 +1543,7 @@ pub fn gen_with_grammar(r: &mut Rng, origin: String, grammar: String, gp: &GenPa
         policy_class: "tick".into(),
         base_reads: 0,
         zero_width,
+        lex_error: None,
     })
 }
 
